@@ -91,6 +91,8 @@ Inductive cop :=
 | CAdd (r : record) (jitter : Z)
 | CAdv (t : Z)          (* exact scheduling: every due firing happens at its deadline *)
 | CLate (t : Z)         (* jump to t, then deliver the pending firing late *)
+| CAdvB (t : Z)         (* as CAdv for deadlines < t; the clock ends at t, a firing due exactly at t still pending:
+                           the caller's next action at instant t is processed before the simultaneously due timer *)
 | CLookup (name : bstr) (type : N).
 Inductive cout :=
 | OSig (t : Z) (s : csig) (snapshot : list record)
@@ -127,6 +129,8 @@ Definition cstep (st : Z * cache) (o : cop) : (Z * cache) * list cout :=
                               | None => (c, [])
                               end in
               ((t, c'), o)
+  | CAdvB t => if t <=? now then (st, []) else   (* whole milliseconds: deadline < t  iff  deadline <= t - 1 *)
+              let '(c', o) := fire_exact (S (S (total_triggers c))) (t - 1) c in ((t, c'), o)
   | CLookup n ty => (st, [OLookup (lookup n ty c)])
   end.
 
